@@ -1,8 +1,9 @@
 (* C02 — Needle on-disk encoding round-trips and is self-checking.
    Only statements closed by [exact]; proofs live in proof/NeedleProofs.v.
-   [crc] is the CRC32-Castagnoli oracle (any function list N -> N). *)
+   [crc] is any function list N -> N; [crc32c] is CRC32-Castagnoli itself (model/NeedleCrc.v,
+   bit by bit; compared with the Go library's value on every byte string of every case). *)
 From Coq Require Import List NArith Bool.
-From SW Require Import model.Needle proof.NeedleProofs.
+From SW Require Import model.Needle model.NeedleCrc proof.NeedleProofs proof.NeedleCrcProofs proof.NeedleScanProofs.
 Import ListNotations.
 Local Open Scope N_scope.
 
@@ -92,10 +93,154 @@ Theorem c02_overwrite_is_encode : forall v n d', data n <> [] -> len d' = len (d
 Proof. exact encode_set_data. Qed.
 Print Assumptions c02_overwrite_is_encode.
 
-(* non-vacuity: a version-3 needle with every defined flag set satisfies all the hypotheses,
-   is 8-aligned, round-trips, is found by the scan after an 8-byte super block, and a changed
-   data byte is detected (toy checksum). *)
+(* ---------- the self-checking clause with the real checksum ---------- *)
+(* CRC32-C changes whenever one byte of a string changes (any of the 255 non-zero masks -
+   every single-bit flip in particular - at any position, any length): the register is
+   GF(2)-linear and a step never turns a non-zero 32-bit value into zero. *)
+Theorem c02_crc32c_detects_byte : forall l pos mask, pos < len l -> 0 < mask < 256 ->
+  crc32c (flip_byte l pos mask) <> crc32c l.
+Proof. exact crc32c_detects_byte. Qed.
+Print Assumptions c02_crc32c_detects_byte.
+
+(* "A stored record whose data bytes are altered is reported as corrupted instead of being
+   returned", for ReadBytes and one altered byte, with NO assumption about the checksum. *)
+Theorem c02_crc32c_flip_detected : forall v n pos mask, enc_okb n = true -> ranges_ok n -> bytes_ok (data n) ->
+  checksum n = crc32c (data n) -> pos < len (data n) -> 0 < mask < 256 ->
+  snd (read_bytes crc32c (flip_byte (encode v n) (20 + pos) mask) (body_size n) v) = SCrc.
+Proof. exact crc32c_flip_detected. Qed.
+Print Assumptions c02_crc32c_flip_detected.
+
+(* ... and for any change confined to 4 consecutive data bytes (bursts of up to 32 bits in a
+   byte-aligned window; in particular every burst of at most 25 bits) *)
+Theorem c02_crc32c_burst_detected : forall v n a x b w, enc_okb n = true -> ranges_ok n -> bytes_ok (data n) ->
+  checksum n = crc32c (data n) -> data n = a ++ x ++ b ->
+  length x = length w -> (length w <= 4)%nat -> bytes_ok w -> Exists (fun m => m <> 0) w ->
+  snd (read_bytes crc32c (overwrite_data (encode v n) (len (data n)) (a ++ xor_list x w ++ b)) (body_size n) v) = SCrc.
+Proof. exact crc32c_burst_detected. Qed.
+Print Assumptions c02_crc32c_burst_detected.
+
+Theorem c02_crc32c_detects_burst : forall a x b w, length x = length w -> (length w <= 4)%nat ->
+  bytes_ok w -> Exists (fun m => m <> 0) w ->
+  crc32c (a ++ xor_list x w ++ b) <> crc32c (a ++ x ++ b).
+Proof. exact crc32c_detects_burst. Qed.
+Print Assumptions c02_crc32c_detects_burst.
+
+(* the same through ReadData, the record anywhere in a file *)
+Theorem c02_crc32c_flip_detected_in_file : forall v n pre post pos mask, enc_okb n = true -> ranges_ok n ->
+  bytes_ok (data n) -> checksum n = crc32c (data n) -> pos < len (data n) -> 0 < mask < 256 ->
+  snd (read_data crc32c (flip_byte (pre ++ encode v n ++ post) (len pre + (20 + pos)) mask) (len pre) (body_size n) v) = SCrc.
+Proof. exact crc32c_flip_detected_in_file. Qed.
+Print Assumptions c02_crc32c_flip_detected_in_file.
+
+(* ---------- the scan path is NOT self-checking (known finding 1) ---------- *)
+(* ReadNeedleBodyBytes sets n.Checksum = NewCRC(n.Data) instead of comparing; a visitor that
+   re-appends what it is handed (VolumeFileScanner4Vacuum, i.e. the scan-based Volume.Compact)
+   therefore writes every record with a checksum that fits whatever data the scan decoded. *)
+Theorem c02_scan_copy_fixes : forall crc v npre pre rs, Forall rec_ok rs ->
+  scan_copy crc v npre (pre ++ concat (map (encode v) rs)) (len pre)
+    = npre ++ concat (map (encode v) (map (fix_checksum crc) rs)) /\
+  scan_copy_index crc v npre (pre ++ concat (map (encode v) rs)) (len pre) = layout v rs (len npre).
+Proof. exact scan_copy_fixes. Qed.
+Print Assumptions c02_scan_copy_fixes.
+
+(* every record with payload of the copy reads back with status ok ... *)
+Theorem c02_scan_copy_reads_ok : forall crc v npre pre rs1 n rs2,
+  Forall rec_ok (rs1 ++ n :: rs2) -> data n <> [] ->
+  read_data crc (scan_copy crc v npre (pre ++ concat (map (encode v) (rs1 ++ n :: rs2))) (len pre))
+            (len npre + len (concat (map (encode v) rs1))) (body_size n) v
+    = (dview v (fix_checksum crc n), SOk).
+Proof. exact scan_copy_reads_ok. Qed.
+Print Assumptions c02_scan_copy_reads_ok.
+
+(* ... in particular a record whose data bytes were overwritten in place by ANY d': after the
+   copy it is returned with the altered bytes d', not reported. *)
+Theorem c02_scan_copy_launders : forall crc v npre pre rs1 n d' rs2,
+  Forall rec_ok (rs1 ++ n :: rs2) -> data n <> [] -> len d' = len (data n) ->
+  let file := pre ++ concat (map (encode v) rs1) ++ overwrite_data (encode v n) (len (data n)) d'
+                  ++ concat (map (encode v) rs2) in
+  exists r, read_data crc (scan_copy crc v npre file (len pre))
+                      (len npre + len (concat (map (encode v) rs1))) (body_size n) v = (r, SOk)
+            /\ data (d_n r) = d'.
+Proof. exact scan_copy_launders. Qed.
+Print Assumptions c02_scan_copy_launders.
+
+(* FULL statement (scan_self_checking: after a scan-based copy of a file with an altered
+   record, reading that record does not succeed) REFUTED for the real checksum ... *)
+Theorem c02_scan_self_checking_refuted : ~ scan_self_checking crc32c.
+Proof. exact scan_self_checking_refuted. Qed.
+Print Assumptions c02_scan_self_checking_refuted.
+
+(* ... and for every checksum function that can tell two equally long strings apart at all *)
+Theorem c02_scan_self_checking_refuted_gen : forall crc n d', rec_ok n -> data n <> [] ->
+  checksum n = crc (data n) -> len d' = len (data n) -> crc d' <> crc (data n) ->
+  ~ scan_self_checking crc.
+Proof. exact scan_self_checking_refuted_gen. Qed.
+Print Assumptions c02_scan_self_checking_refuted_gen.
+
+(* the witness (harness cases 2 and 3): id 1 "hello", lowest bit of 'h' flipped: the direct
+   read answers the CRC error, the read after the copy returns "iello" with status ok *)
+Theorem c02_launder_witness :
+  let n := launder_witness in
+  let sb := [3; 0; 0; 0; 0; 0; 0; 0] in
+  let bad := sb ++ overwrite_data (encode 3 n) 5 [105; 101; 108; 108; 111] in
+  snd (read_data crc32c bad 8 (body_size n) 3) = SCrc /\
+  (let '(r, s) := read_data crc32c (scan_copy crc32c 3 sb bad 8) 8 (body_size n) 3 in
+   (data (d_n r), s)) = ([105; 101; 108; 108; 111], SOk).
+Proof. exact launder_witness_computed. Qed.
+Print Assumptions c02_launder_witness.
+
+(* PARTIAL (trigger: some record's checksum disagrees with its data, [unaltered] = false): a
+   scan-based copy of an undamaged file is that file after the new prefix - so every record
+   reads back as written (c02_roundtrip_in_file) *)
+Theorem c02_scan_copy_partial : forall crc v npre pre rs, Forall rec_ok rs -> unaltered crc rs = true ->
+  scan_copy crc v npre (pre ++ concat (map (encode v) rs)) (len pre) = npre ++ concat (map (encode v) rs).
+Proof. exact scan_copy_clean. Qed.
+Print Assumptions c02_scan_copy_partial.
+
+(* ---------- torn tail ---------- *)
+(* records followed by a record cut after k bytes: the complete records are visited as
+   before; the torn one is not visited if its header is incomplete, else once with the
+   header only; nothing else *)
+Theorem c02_scan_torn : forall crc v pre rs n k, Forall rec_ok rs -> rec_ok n -> k < len (encode v n) ->
+  scan crc v (pre ++ concat (map (encode v) rs) ++ takeN k (encode v n)) (len pre) =
+    scan_expected crc v rs (len pre)
+    ++ (if k <? 16 then []
+        else [(header_needle (cookie n) (id n) (body_size n), len pre + len (concat (map (encode v) rs)))]).
+Proof. exact scan_torn. Qed.
+Print Assumptions c02_scan_torn.
+
+(* the decoder as it runs (DataSize read within the capacity of the blob, [read_v2_x]) and the
+   simpler [read_v2] agree on every body of 0 or >= 4 bytes *)
+Theorem c02_decoder_variants_agree : forall ext body d, body = [] \/ 4 <= len body ->
+  read_v2_x ext body d = read_v2 body d.
+Proof. exact read_v2_x_eq. Qed.
+Print Assumptions c02_decoder_variants_agree.
+
+(* non-vacuity: a version-3 needle with every defined flag set and the real CRC32-C satisfies
+   all the hypotheses, is 8-aligned, round-trips, is found by the scan after an 8-byte super
+   block, a changed data byte is detected, a torn copy is visited header-only, and the
+   scan-based copy of the undamaged file is the file. *)
 Example c02_example :
+  let n := example_needle_c in
+  let sb := [3; 0; 0; 0; 0; 0; 0; 0] in
+  enc_okb n = true /\ ranges_ok n /\ rec_ok n /\ checksum n = crc32c (data n) /\
+  empty_payload n = false /\ normalb 3 n = true /\ unaltered crc32c [n; n] = true /\
+  len (encode 3 n) = 64 /\
+  read_bytes crc32c (encode 3 n) (body_size n) 3 = (dview 3 n, SOk) /\
+  scan crc32c 3 (sb ++ encode 3 n ++ encode 3 n) 8 = [(dview 3 n, 8); (dview 3 n, 72)] /\
+  snd (read_bytes crc32c (flip_byte (encode 3 n) (20 + 2) 4) (body_size n) 3) = SCrc /\
+  scan crc32c 3 (sb ++ encode 3 n ++ takeN 40 (encode 3 n)) 8
+    = [(dview 3 n, 8); (header_needle (cookie n) (id n) (body_size n), 72)] /\
+  scan_copy crc32c 3 sb (sb ++ encode 3 n ++ encode 3 n) 8 = sb ++ encode 3 n ++ encode 3 n.
+Proof. exact example_holds. Qed.
+Print Assumptions c02_example.
+
+Example c02_example_bytes : bytes_ok (data example_needle_c).
+Proof. exact example_bytes_ok. Qed.
+Print Assumptions c02_example_bytes.
+
+(* the generic-checksum theorems are not vacuous either (toy checksum) *)
+Example c02_example_toy :
   let n := example_needle in
   enc_okb n = true /\ ranges_ok n /\ rec_ok n /\ checksum n = toy_crc (data n) /\
   empty_payload n = false /\ normalb 3 n = true /\
@@ -103,4 +248,5 @@ Example c02_example :
   read_bytes toy_crc (encode 3 n) (body_size n) 3 = (dview 3 n, SOk) /\
   scan toy_crc 3 ([3; 0; 0; 0; 0; 0; 0; 0] ++ encode 3 n ++ encode 3 n) 8 = [(dview 3 n, 8); (dview 3 n, 72)] /\
   snd (read_bytes toy_crc (overwrite_data (encode 3 n) 5 [1; 2; 7; 255; 0]) (body_size n) 3) = SCrc.
-Proof. vm_compute. repeat split; try reflexivity; discriminate. Qed.
+Proof. exact example_toy_holds. Qed.
+Print Assumptions c02_example_toy.
